@@ -44,6 +44,9 @@ META = {
         "memoryview access but is a textual transform of the source (boundscheck switched on; wraparound left off as in production, so a negative index raises instead of counting from the end)",
         "a clean run is not memory safety; it is absence of reports on the executions produced"],
 }
+META["rule"] += "; round 7: 'steps' shards - operands used up exactly on step 2^k-1, 2^k, 2^k+1 (k up to 24 quick / 25 thorough) of the two-pointer merge, each a view whose following word is an element of the other operand"
+for _t in META["require"]:
+    META["require"][_t] = list(META["require"][_t]) + ['class:operand_used_up_on_step_2^k+0']
 
 PRES_PAIRS = [("own", "own"), ("view_in_buffer", "view_in_buffer"), ("strided", "own"), ("own", "strided"),
               ("readonly", "readonly"), ("view_in_buffer", "own"), ("reversed", "strided"), ("strided", "reversed"),
